@@ -1,6 +1,6 @@
 SPECIFICATION Spec
 CONSTANTS
-  MaxTags = 4
+  MaxTags = 3
   DoExport = TRUE
 INVARIANTS ScopeRefines StackBalanced Export
 CHECK_DEADLOCK FALSE
